@@ -407,6 +407,9 @@ def r7_shared(ctx):
 
 
 def run(ctx):
+    from .shared import zip_alignment
+
+    zip_alignment(ctx, 'C06.R4', ctx.corpus.func('repository', 'Repository.clean'), 'clean')
     from ..report import Relabel
     from .c02 import r1_keep_set
     from .gcroles import DeleteRoles
